@@ -16,7 +16,7 @@ import (
 	"unsafe"
 )
 
-const MaxClients = 64
+const MaxClients = 512
 
 type Policy int
 
@@ -85,10 +85,15 @@ type Outcome struct {
 	First       int
 	Digest      uint64
 	BodyPanics  [MaxClients]string
-	Starved     int // fairness guard fired
-	Deadlocks   int // every live client blocked on a lock held by another
-	Spawned     int // goroutines started by the library and run as simulated clients
+	Starved     int  // fairness guard fired
+	Deadlocks   int  // every live client blocked on a lock held by another
+	Spawned     int  // goroutines started by the library and run as simulated clients
+	Aborted     bool // goroutine capacity exceeded: the run is not judged
 }
+
+// CapacityExceeded is raised in a client whose library call wants to start more
+// goroutines than the simulator can hold; the run is then abandoned, not judged.
+type CapacityExceeded struct{}
 
 // StepCapExceeded is the panic value raised from a yield point when an operation
 // runs longer than Config.StepCap.
@@ -120,6 +125,7 @@ type state struct {
 	deadlocks     int
 	spawned       int
 	nHarness      int
+	aborted       bool
 	// PCT
 	prio    [MaxClients]int
 	cps     [8]uint64
@@ -389,8 +395,10 @@ func Spawn(body func()) {
 	}
 	if i < 0 {
 		if s.n >= MaxClients {
-			fmt.Fprintf(os.Stderr, "simrt: the code under test keeps more than %d goroutines alive in one run: beyond the simulator's capacity (not a verdict)\n", MaxClients)
-			os.Exit(2)
+			// beyond the simulator's capacity: the run is abandoned (not judged); the panic
+			// unwinds the library call of the spawning client, the harness marks the run
+			s.aborted = true
+			panic(CapacityExceeded{})
 		}
 		i = s.n
 		s.n++
@@ -662,7 +670,9 @@ func clientMain(i int, body func()) {
 	s.gates[i].park()
 	defer func() {
 		if r := recover(); r != nil {
-			if _, stuck := r.(StepCapExceeded); stuck && i >= s.nHarness {
+			if _, cap := r.(CapacityExceeded); cap {
+				// abandoned run
+			} else if _, stuck := r.(StepCapExceeded); stuck && i >= s.nHarness {
 				// a goroutine started by the library that can never proceed: it just ends;
 				// whoever waits for it ends in StepCapExceeded too and is judged there
 			} else {
@@ -696,6 +706,7 @@ func setup(cfg *Config, n int) {
 	s.blockedStreak = 0
 	s.deadlocks = 0
 	s.spawned = 0
+	s.aborted = false
 	s.done.w = 0
 	for i := 0; i < MaxClients; i++ {
 		s.alive[i] = i < n
@@ -779,7 +790,7 @@ func Run(cfg *Config, bodies []func()) *Outcome {
 
 //go:norace
 func collect() *Outcome {
-	o := &Outcome{Steps: s.step, Preemptions: s.npre, First: s.first, Starved: s.starved, Deadlocks: s.deadlocks, Spawned: s.spawned}
+	o := &Outcome{Steps: s.step, Preemptions: s.npre, First: s.first, Starved: s.starved, Deadlocks: s.deadlocks, Spawned: s.spawned, Aborted: s.aborted}
 	o.Events = make([]Event, len(s.events))
 	copy(o.Events, s.events)
 	for i := 0; i < s.n; i++ {
